@@ -58,14 +58,14 @@ def handler_parts(run: Run) -> Dict[str, object]:
         if isinstance(t, Sym):
             if t.head == "item" and len(t.args) == 2:
                 mk = _re.match(r"class<.*\.(\w+)>$", t.args[0].key())
-                mv = _re.match(r"Fn\((\w+);", t.args[1].key())
+                mv = _re.match(r"(?:kw:\w+\()?Fn\((\w+);", t.args[1].key())
                 if mk and mv:
                     mapping[mk.group(1)] = mv.group(1)
             elif t.head.startswith("call:handle") or t.head == "call:handle":
                 ks = [a_.key() for a_ in t.args]
                 for i_, k_ in enumerate(ks[:-1]):
                     mk = _re.match(r"class<.*\.(\w+)>$", k_)
-                    mv = _re.match(r"Fn\((\w+);", ks[i_ + 1])
+                    mv = _re.match(r"(?:kw:\w+\()?Fn\((\w+);", ks[i_ + 1])
                     if mk and mv:
                         mapping[mk.group(1)] = mv.group(1)
             for a_ in t.args:
@@ -82,7 +82,7 @@ def handler_parts(run: Run) -> Dict[str, object]:
                     ks = [a_.key() for a_ in e_.args]
                     for i_, k_ in enumerate(ks[:-1]):
                         mk = _re.match(r"class<.*\.(\w+)>$", k_)
-                        mv = _re.match(r"Fn\((\w+);", ks[i_ + 1])
+                        mv = _re.match(r"(?:kw:\w+\()?Fn\((\w+);", ks[i_ + 1])
                         if mk and mv:
                             mapping[mk.group(1)] = mv.group(1)
             if p_.ret is not None:
@@ -140,9 +140,17 @@ def rule_VP(run: Run) -> RuleResult:
     nc = repo.cls("NoCache")
     g = nc.methods.get("get")
     s = nc.methods.get("set")
-    ok = g is not None and all(isinstance(x, ast.Raise) for x in g.body if not (isinstance(x, ast.Expr) and isinstance(x.value, ast.Constant))) \
-        and s is not None and all(isinstance(x, ast.Pass) or (isinstance(x, ast.Expr) and isinstance(x.value, ast.Constant)) for x in s.body)
-    res.add("labrea.cache.NoCache:get always misses, set stores nothing", ok, nc.module.relpath, nc.node.lineno, "", nec)
+    # (by paths: every way through get ends in a CacheGetFailure; every way through set returns nothing and neither stores nor calls anything)
+    ok, why_nc = g is not None and s is not None, "get/set not found"
+    if ok:
+        gps = analyse_function(Ctx(repo), nc.module, g, cls=nc)
+        sps = analyse_function(Ctx(repo), nc.module, s, cls=nc)
+        why_nc = ""
+        if not gps or not all(p.status == "raise" and p.exc and p.exc[0].split(".")[-1] == "CacheGetFailure" for p in gps):
+            ok, why_nc = False, f"get: {[(p.status, p.exc[0] if p.exc else None) for p in gps][:3]}"
+        elif not sps or not all(p.status == "ret" and (p.ret is None or p.ret.key() == Const(None).key()) and not any(e.kind in ("store", "acc", "call", "op", "delete") for e in p.events) for p in sps):
+            ok, why_nc = False, f"set: {[(p.status, p.ret.key()[:40] if p.ret is not None else None, [e.kind for e in p.events if e.kind in ('store', 'acc', 'call', 'op', 'delete')][:3]) for p in sps][:3]}"
+    res.add("labrea.cache.NoCache:get always misses, set stores nothing", ok, nc.module.relpath, nc.node.lineno, why_nc, nec)
     return res
 
 
@@ -312,7 +320,7 @@ def rule_SH(run: Run) -> RuleResult:
     from . import rules_runtime as RTN
     RTN._rt(run)
     CUR = "<CUR>"
-    rets = [RTN.cur_norm(run, p.ret.key()) if p.status == "ret" and p.ret is not None else p.status for p in lps]
+    rets = [RTN.cur_norm(run, RTN.positional_handle(run, p.ret).key()) if p.status == "ret" and p.ret is not None else p.status for p in lps]
     # handle(LogRequest, handler) or the mapping form handle({LogRequest: handler}) — the same derived runtime
     ok = bool(rets) and "log" in tw_short and all(r in (f"call:handle({CUR},class<labrea.logging.LogRequest>,Fn({tw_short['log']};))",
                                                         f"call:handle({CUR},dict(item(class<labrea.logging.LogRequest>,Fn({tw_short['log']};))))",
@@ -442,9 +450,27 @@ def rule_L1(run: Run) -> RuleResult:
         for p in lps_:
             runs = [e for e in p.events if e.kind == "call" and e.text == "run" and isinstance(e.target, Sym) and e.target.head == "new:LogRequest"]
             shown_ += [e.target.key()[:80] for e in runs]
-            if len(runs) != 1 or not runs[0].target.key().startswith("new:LogRequest(Child(level),Child(name),Child(msg),"):
-                okl = False
+            if len(runs) != 1 or runs[0].target.key() != "new:LogRequest(Child(level),Child(name),Child(msg),options)":
+                okl = False         # (the caller's options go with it: the handler reads LABREA.LOGGING.DISABLED from them)
         res.add("labrea.logging.LogEffect.transform:one LogRequest carrying level, name, msg and the options", okl, le.module.relpath, lt[1].lineno, f"{shown_[:2]}", nec)
+    # the level helpers (labrea.logging.INFO(name, msg, options) …) issue exactly that request: their own level, then name, message, options
+    n_lv = 0
+    for lv_ in ("CRITICAL", "ERROR", "WARNING", "INFO", "DEBUG"):
+        fi_ = repo.functions.get(f"{lg.module.name}.{lv_}")
+        if fi_ is None:
+            continue
+        n_lv += 1
+        pr_ = [a_.arg for a_ in fi_.node.args.posonlyargs + fi_.node.args.args]
+        want_ = f"call:run(new:LogRequest(ext<logging.{lv_}>,{','.join(pr_[:3])}"
+        got_ = sorted({p.ret.key() if p.status == "ret" and p.ret is not None else p.status for p in analyse_function(Ctx(repo), fi_.module, fi_.node)})
+        # (what a later version hands on beyond these four — arguments for the message, say — comes after them)
+        ok_lv = len(pr_) >= 3 and len(got_) == 1 and got_[0].startswith(want_) and got_[0][len(want_):len(want_) + 1] in (")", ",")
+        res.add(f"{lg.module.name}.{lv_}:issues LogRequest(logging.{lv_}, name, msg, options)", ok_lv, fi_.module.relpath, fi_.node.lineno,
+                f"returns {got_}" + ("" if ok_lv else f"; expected {want_}))"),
+                "a log emission is a request through the current runtime (C18) carrying the level it was asked at, the logger name, the message and the options "
+                "the disabled-switch is read from (C16)")
+    if n_lv < 5:
+        raise AnalysisError(f"R-L1: only {n_lv} level helpers found in {lg.module.name}")
     for op in ("validate", "keys", "explain"):
         ps = run.paths(lg, op)
         n = sum(1 for p in ps for e in p.events if e.kind == "call" and "LogRequest" in e.text)
@@ -457,6 +483,16 @@ def rule_L1(run: Run) -> RuleResult:
         while isinstance(t, New):
             if t.cls.name == "Logged":
                 ok = t.attrs.get("level") is not None and t.attrs["level"].key() in ("ext<logging.INFO>", "attr:INFO(ext<logging>)")
+                lv_ = t.attrs.get("level")
+                if not ok and isinstance(lv_, Sym) and lv_.head == "global" and lv_.text:
+                    # a private module-level name for the level (``_LOG_LEVEL = logging.INFO``), bound once and never re-bound
+                    mod_, _, nm_ = lv_.text.rpartition(".")
+                    mm_ = repo.modules.get(mod_)
+                    binds = [st for st in ast.walk(mm_.tree) if isinstance(st, (ast.Assign, ast.AnnAssign, ast.AugAssign)) and any(
+                        isinstance(tg_, ast.Name) and tg_.id == nm_ for tg_ in (st.targets if isinstance(st, ast.Assign) else [st.target]))] if mm_ is not None else []
+                    if len(binds) == 1 and binds[0] in mm_.tree.body and getattr(binds[0], "value", None) is not None and not any(
+                            isinstance(g_, ast.Global) and nm_ in g_.names for g_ in ast.walk(mm_.tree)):
+                        ok = repo.resolve_expr(mm_, binds[0].value) == ("external", "logging.INFO")
                 lvl = t.attrs.get("level")
             t = t.attrs.get("evaluatable")
     res.add("labrea.dataset.Dataset._composed:logs at logging.INFO", ok, ds.module.relpath, ds.find_method("evaluate")[1].lineno, "", nec)
@@ -2375,10 +2411,14 @@ def rule_IS(run: Run) -> RuleResult:
         for op in ("evaluate", "validate", "keys", "explain"):
             for p in run.paths(cls, op):
                 n_paths += 1
+                ctor_stack: List[str] = []
                 for e in p.events:
                     obj = None
                     val = None
                     what = ""
+                    if e.kind == "enter":
+                        ctor_stack = ctor_stack[:e.depth] + [e.text]
+                        continue
                     if e.kind == "store" and len(e.args) == 2 and isinstance(e.args[0], Child):
                         obj, val, what = e.args[0], e.target, f"{e.text} = …"
                     elif e.kind == "call" and e.text in _OBJ_MUTATORS and isinstance(e.target, Child) and getattr(e.target, "kind", "other") == "other" \
@@ -2388,6 +2428,8 @@ def rule_IS(run: Run) -> RuleResult:
                         continue
                     if e.kind == "store" and (e.op or "").split(".")[-1] in ("__init__", "__new__", "__setstate__", "__post_init__"):
                         continue        # the constructor of an object created by this call fills in that object
+                    if e.kind == "store" and obj.path.startswith("<instance>") and any(n_ in ("__init__", "__new__", "__setstate__", "__post_init__") for n_ in ctor_stack[:e.depth]):
+                        continue        # … also through a helper the constructor hands the new object to
                     k = (cls.qualname, op, e.file, e.line)
                     if k in seen:
                         continue
